@@ -8,6 +8,7 @@ From Coq Require Import String.
 From Coq Require Import List Arith ZArith Bool Permutation.
 From BiomV Require Import Base.Tree Base.ListUtil Base.Matrix Model.Table Model.Json Model.JsonText.
 From BiomV Require Import Proofs.JsonProofs Proofs.JsonTextProofs Proofs.JsonDocProofs.
+From BiomV Require Import Gen.JsonPrelude Gen.JsonGen Proofs.GenBridgeJsonProofs.
 Import ListNotations.
 Open Scope Z_scope.
 
@@ -160,3 +161,29 @@ Theorem data_rows_commas : forall fmt m,
                             end.
 Proof. intros fmt m. exact (proj2 (JsonDocProofs.data_rows_spec fmt m 0%nat)). Qed.
 Print Assumptions data_rows_commas.
+
+(* --- translator tie (DESIGN 3.1 T16): Table.to_json regenerated from biom/table.py --- *)
+
+(* Gen/JsonGen.v gen_to_json is what tools/py2v_json makes of Table.to_json (the returned-string
+   path, direct_io falsy) on every run.  It returns exactly the characters of the hand-written
+   text model to_json_text, for every table that satisfies what the constructor establishes: one
+   matrix row per observation ID and metadata lists as long as their axis.  generated_by and the
+   date are the strings the model keeps in j_genby / j_date. *)
+Theorem to_json_text_is_source_partial : forall fmt dumps_md c tid now,
+  length (j_mat c) = length (j_oids c) ->
+  md_len (j_omd c) (length (j_oids c)) -> md_len (j_smd c) (length (j_sids c)) ->
+  gen_to_json fmt dumps_md c tid now (str_of_json (j_genby c)) (Some (str_of_json (j_date c)))
+  = ROk (to_json_text fmt dumps_md c tid).
+Proof. exact GenBridgeJsonProofs.to_json_text_is_source_partial. Qed.
+Print Assumptions to_json_text_is_source_partial.
+
+Example to_json_text_is_source_partial_witness :
+  length (j_mat ex_table) = length (j_oids ex_table)
+  /\ md_len (j_omd ex_table) (length (j_oids ex_table)) /\ md_len (j_smd ex_table) (length (j_sids ex_table)).
+Proof. exact GenBridgeJsonProofs.to_json_text_is_source_partial_witness. Qed.
+
+(* without creation_date the date written is the isoformat of datetime.now() *)
+Theorem to_json_default_date_is_source : forall fmt dumps_md c tid now g,
+  gen_to_json fmt dumps_md c tid now g None = gen_to_json fmt dumps_md c tid now g (Some now).
+Proof. exact GenBridgeJsonProofs.to_json_default_date_is_source. Qed.
+Print Assumptions to_json_default_date_is_source.
